@@ -210,6 +210,15 @@ class PlanJoinTSPredictorQuery:
 
         time_filter = find_time_filter(preparation_where, time_column_name=predictor_time_column_name)
 
+        if (
+            isinstance(time_filter, BinaryOperation)
+            and not isinstance(time_filter.args[0], Identifier)
+            and time_filter.op in ('>', '>=', '<', '<=', '=')
+        ):
+            # 'value < column': put the column first, the conditions below are read as 'column > value'
+            time_filter.args = [time_filter.args[1], time_filter.args[0]]
+            time_filter.op = {'>': '<', '>=': '<=', '<': '>', '<=': '>=', '=': '='}[time_filter.op]
+
         order_by = [OrderBy(Identifier(parts=[predictor_time_column_name]), direction='DESC')]
 
         query_modifiers = query.modifiers
